@@ -20,18 +20,22 @@ type keySort struct{ key, sort string }
 
 type writeSet struct {
 	keys  map[string]string // heap key -> sort
+	alias map[string]string // keys of the same fields seen through a containing struct (interior pointers); havocked, not part of frame checks
 	cells map[*ssa.Alloc]bool
 	all   bool // unknown code: everything may change
 	alloc bool
 }
 
 func newWriteSet() *writeSet {
-	return &writeSet{keys: map[string]string{}, cells: map[*ssa.Alloc]bool{}}
+	return &writeSet{keys: map[string]string{}, alias: map[string]string{}, cells: map[*ssa.Alloc]bool{}}
 }
 
 func (w *writeSet) union(o *writeSet) {
 	for k, s := range o.keys {
 		w.keys[k] = s
+	}
+	for k, s := range o.alias {
+		w.alias[k] = s
 	}
 	for c := range o.cells {
 		w.cells[c] = true
@@ -199,7 +203,95 @@ func (x *X) blockWrites(fn *ssa.Function, only map[int]bool) *writeSet {
 			}
 		}
 	}
+	x.prog.expandInterior(w)
 	return w
+}
+
+// containers: for every struct type T that occurs by value as a field (at any
+// depth) of a named struct type R of the loaded program, the key prefixes
+// "R.f.g" under which the symbolic executor addresses the fields of that T when
+// it reaches them through a pointer into an R object (&r.f.g). A write set
+// computed from the static type of a pointer (*T) names "H:T.x"; the same
+// store through an interior pointer lands in "H:R.f.g.x".
+func (p *Prog) containers() map[string][]string {
+	p.contOnce.Do(func() {
+		p.cont = map[string][]string{}
+		seen := map[string]bool{}
+		var walk func(prefix string, st *types.Struct, depth int)
+		walk = func(prefix string, st *types.Struct, depth int) {
+			if depth > 5 {
+				return
+			}
+			for i := 0; i < st.NumFields(); i++ {
+				f := st.Field(i)
+				fst, ok := f.Type().Underlying().(*types.Struct)
+				if !ok {
+					continue
+				}
+				pre := prefix + "." + f.Name()
+				tk := typeKey(f.Type())
+				if !seen[tk+"\x00"+pre] {
+					seen[tk+"\x00"+pre] = true
+					p.cont[tk] = append(p.cont[tk], pre)
+				}
+				walk(pre, fst, depth+1)
+			}
+		}
+		for _, pkg := range p.SSA.AllPackages() {
+			if pkg.Pkg == nil || !isRepoPkg(pkg.Pkg) {
+				continue
+			}
+			for _, m := range pkg.Members {
+				t, ok := m.(*ssa.Type)
+				if !ok {
+					continue
+				}
+				if st, ok := t.Type().Underlying().(*types.Struct); ok {
+					walk(typeKey(t.Type()), st, 0)
+				}
+			}
+		}
+		for k := range p.cont {
+			sort.Strings(p.cont[k])
+		}
+	})
+	return p.cont
+}
+
+func (p *Prog) expandInterior(w *writeSet) {
+	cont := p.containers()
+	if len(cont) == 0 {
+		return
+	}
+	add := func(k, srt string) {
+		pat := strings.HasPrefix(k, "@")
+		body := strings.TrimPrefix(k, "@")
+		if !strings.HasPrefix(body, "H:") {
+			return
+		}
+		body = body[2:]
+		for tk, pres := range cont {
+			if !strings.HasPrefix(body, tk) {
+				continue
+			}
+			rest := body[len(tk):]
+			if rest != "" && rest[0] != '.' && rest[0] != '#' && rest[0] != '$' {
+				continue
+			}
+			for _, pre := range pres {
+				ak := "H:" + pre + rest
+				if pat {
+					ak = "@" + ak
+				}
+				if _, own := w.keys[ak]; !own {
+					w.alias[ak] = srt
+				}
+			}
+		}
+	}
+	for k, srt := range w.keys {
+		add(k, srt)
+	}
 }
 
 func (x *X) mapKeys(w *writeSet, mt *types.Map) {
@@ -348,7 +440,18 @@ func (x *X) havocAlloc() {
 	x.st.heap["ALLOC"] = n
 }
 
-func (x *X) havocWrites(w *writeSet, why string) {
+func (x *X) havocWrites(w0 *writeSet, why string) {
+	w := w0
+	if len(w0.alias) > 0 && !w0.all {
+		// the same fields reached through a containing object are forgotten too
+		w = newWriteSet()
+		w.union(w0)
+		for k, s := range w0.alias {
+			if _, ok := w.keys[k]; !ok {
+				w.keys[k] = s
+			}
+		}
+	}
 	if w.all {
 		x.bumpHeapVersion("*")
 	} else {
@@ -1264,12 +1367,25 @@ func verifyFuncVariant(prog *Prog, specs *Specs, fn *ssa.Function, variant strin
 			} else {
 				r = decide(o.Name, q, timeout, tier == "thorough")
 			}
-			if r.Status == "proved" && o.Kind == "assert" {
+			if r.Status == "proved" && (o.Kind == "assert" || (coverAll && o.Kind != "panic")) {
 				// vacuity guard: a site assertion is placed where its author expects execution to
 				// arrive; if the path condition itself is unsatisfiable under the engine's
 				// assumptions the "proof" says nothing and is not counted
 				cover := pre + x.strLitDeclsFor(pre) + x.instances(o.Prefix) + "(assert " + o.Cond + ")\n"
-				if c := solveOneCtx(context.Background(), o.Name+".cover", instVariant(cover), 10, "z3-new-5.1.0"); c.Status == "unsat" {
+				ct := 10
+				if o.Kind != "assert" {
+					ct = 3
+				}
+				c := solveOneCtx(context.Background(), o.Name+".cover", instVariant(cover), ct, "z3-new-5.1.0")
+				if c.Status != "unsat" && coverAll {
+					// diagnostic sweep: also the exact query (quantified axioms kept)
+					c = solveOneCtx(context.Background(), o.Name+".cover", cover, 5, "z3-new-5.1.0")
+				}
+				if c.Status == "unsat" {
+					if d := os.Getenv("GOVC_VACDUMP"); d != "" {
+						os.MkdirAll(d, 0o755)
+						os.WriteFile(d+"/"+sanitize(o.Name)+".smt2", []byte(cover+"(check-sat)\n"), 0o644)
+					}
 					r.Status = "unknown"
 					r.Detail = "vacuous: the site is unreachable under the engine's assumptions (path condition unsatisfiable), nothing is proved about it"
 				}
@@ -1399,6 +1515,8 @@ func verifyFuncVariant(prog *Prog, specs *Specs, fn *ssa.Function, variant strin
 	}
 	return res
 }
+
+var coverAll = os.Getenv("GOVC_COVERALL") != ""
 
 func init() {
 	// sort.Slice / SliceStable: the elements of the slice are permuted.
